@@ -70,3 +70,9 @@ CHECKS.update({
     note=R1NOTE,
     technique='metamorphic (capture on/off) + round-trip property-based testing with Hypothesis'),
 })
+CHECKS.update({
+ 'C19': dict(
+    text='Hypothesis-generated JSON values, written by the harness\'s own serialiser with drawn number and string spellings and white space, embedded in four binding contexts with fold_ops off and on; ast_to_dict must yield under the bound name exactly json.loads of the literal text by typed equality, and no other key.',
+    note='Trusted: json.loads of the standard library as reference reading; the serialiser in props/c19.py only emits text valid in both JSON and ES5 (asserted on every case).',
+    technique='Hypothesis property-based testing with a differential oracle (json.loads)'),
+})
